@@ -22,6 +22,10 @@ def build_enum(r, name, n, mask, generics=None, kinds=None):
         vs.append(v)
     spec = EnumSpec(name=name, variants=vs, derives=["EnumIter", "EnumCount"], generics=generics)
     gen.ensure_generics_used(r, spec)
+    gen.add_noise(r, spec)
+    for v in spec.variants:
+        if v.kind == "tuple" and len(v.fields) == 1 and v.fields[0].ty in ("u8", "i32", "bool", "String") and r.random() < 0.3:
+            v.default_with = "noise_default_with"     # consumed by EnumString only; EnumIter must still use Default::default()
     return spec
 
 
@@ -67,7 +71,7 @@ def corpus(run):
     for _ in range(3000 if thorough else 600):
         n = r.choice([0, 1, 2, 3, 4, 5, 6, 8, 12])
         mask = [r.random() < 0.3 for _ in range(n)]
-        specs.append(build_enum(r, "E%d" % k, n, mask, generics=r.choice([None, None, None, "T", "N", "TU", "Tdef", "TNdef", "Tw"])))
+        specs.append(build_enum(r, "E%d" % k, n, mask, generics=r.choice([None, None, None, "T", "N", "TU", "Tdef", "TNdef", "Tw", "TwU"])))
         k += 1
     for n in ([64, 300] if thorough else [64]):
         mask = [r.random() < 0.2 for _ in range(n)]
